@@ -21,7 +21,8 @@ RULE = ("seeded random reconfiguration histories (5-40 steps) on one long-lived 
         "sequence of step kinds); non-trivial = at least one reconfiguration between two observations")
 MANDATORY = ["sample_before_read:Sampler", "sample_before_read:QuickSampler", "same_U_different_heralds",
              "postselection_mutated_in_place", "param_set_between_reads", "circuit_edited_between_reads",
-             "source_mutated_between_reads", "backend_swapped", "input_changed", "analyze_without_expected_after_expected"]
+             "source_mutated_between_reads", "backend_swapped", "input_changed", "analyze_without_expected_after_expected",
+             "loss_added_in_place", "circuit_replaced_more_loss"]
 DECIDING = ["mon.twin_distribution_reads", "mon.twin_sampling_calls", "mon.analyze_postconditions"]
 BUDGET = {"quick": 30, "thorough": 480}
 ASSUMPTIONS = ["a twin built from the current public settings is the reference; distributions compared to 1e-12, seeded "
@@ -33,7 +34,10 @@ def param_circuit(lw, rng, n):
     c = lw.Circuit(n)
     params = []
     for _ in range(int(rng.integers(2, 6))):
-        if n >= 2 and rng.random() < 0.6:
+        if rng.random() < 0.15:
+            p = lw.Parameter(pick_unit(rng, 0.1))
+            c.loss(int(rng.integers(n)), p)
+        elif n >= 2 and rng.random() < 0.6:
             p = lw.Parameter(pick_unit(rng, 0.1))
             a = int(rng.integers(n - 1))
             c.bs(a, a + 1, p)
@@ -106,11 +110,24 @@ def history(ctx, lw, rng, kind):
             if step == "edit":
                 cc = obj.circuit
                 nn = cc.n_modes - len(cc._internal_modes)
-                if nn >= 2:
+                kind_e = str(rng.choice(["bs", "ps", "loss", "bs_loss", "swap", "unitary"]))
+                if kind_e == "loss":
+                    cc.loss(int(rng.integers(nn)), float(rng.uniform(0.1, 0.9)))
+                    ctx.bucket("loss_added_in_place")
+                elif kind_e == "bs_loss" and nn >= 2:
+                    a = int(rng.integers(nn - 1))
+                    cc.bs(a, a + 1, float(rng.uniform(0.1, 0.9)), float(rng.uniform(0.1, 0.9)))
+                    ctx.bucket("loss_added_in_place")
+                elif kind_e == "swap" and nn >= 2:
+                    a = int(rng.integers(nn - 1))
+                    cc.mode_swaps({a: a + 1, a + 1: a})
+                elif kind_e == "unitary":
+                    cc.add(lw.Unitary(lw.random_unitary(nn, seed=int(rng.integers(1 << 20)))), 0)
+                elif kind_e == "bs" and nn >= 2:
                     a = int(rng.integers(nn - 1))
                     cc.bs(a, a + 1, float(rng.uniform(0.1, 0.9)))
                 else:
-                    cc.ps(0, pick_phase(rng))
+                    cc.ps(int(rng.integers(nn)), pick_phase(rng))
                 changed_since_obs = "circuit_edited_between_reads"
             elif step == "param":
                 if params:
@@ -124,7 +141,16 @@ def history(ctx, lw, rng, kind):
                 changed_since_obs = "input_changed"
             elif step == "circuit_same":
                 k = obj.circuit.input_modes
-                c2, params = param_circuit(lw, rng, k)
+                if rng.random() < 0.4:
+                    # same components, different number of loss elements (only the shape of U_full changes)
+                    old_c = obj.circuit
+                    c2 = old_c.copy()
+                    for _ in range(int(rng.integers(1, 3))):
+                        c2.loss(int(rng.integers(c2.n_modes - len(c2._internal_modes))), float(rng.uniform(0.05, 0.95)))
+                    params = c2.get_all_params()
+                    ctx.bucket("circuit_replaced_more_loss")
+                else:
+                    c2, params = param_circuit(lw, rng, k)
                 obj.circuit = c2
                 changed_since_obs = "circuit_replaced"
             elif step == "circuit_heralds":
